@@ -257,6 +257,11 @@ def run(prop, seed, budget, ctx):
         failures += ff; fallback_n += fn; distinct |= fd
         for k_, v_ in fh.items(): hist[k_] += v_
         for f in ff: hist["P:" + f["why"][0].split(":")[0]] += 1
+        import objmodel
+        ff, fn, fd, fh = objmodel.run_part("C04", seed, budget)
+        failures += ff; fallback_n += fn; distinct |= fd
+        for k_, v_ in fh.items(): hist[k_] += v_
+        for f in ff: hist["P:" + f["why"][0].split(":")[0]] += 1
     if prop == "C05":
         from discr import run_discr
         df, dn, dd, dh = run_discr(seed, budget, want=("roundtrip",), single=False)      # (one subclass: KF50 of C13; the value itself round-trips)
@@ -267,6 +272,10 @@ def run(prop, seed, budget, ctx):
         of, on = run_flat_reuse(rnd, seed, budget, hist, distinct); failures += of; dn += on
         import schema_conv
         of, on = schema_conv.run_conv_roundtrip(rnd, seed, budget, hist, distinct, build_module); failures += of; dn += on
+        for f in of: hist["P:" + f["why"][0].split(":")[0]] += 1
+        import objmodel
+        of, on, od, oh = objmodel.run_part("C05", seed, budget); failures += of; dn += on; distinct |= od
+        for k_, v_ in oh.items(): hist[k_] += v_
         for f in of: hist["P:" + f["why"][0].split(":")[0]] += 1
         return {"evaluations": len(meta) + dn, "distinct_nontrivial": len(distinct),
                 "rule": "generated types x values obtained by deserializing valid data x random options; plus discriminated unions (serialize adds the discriminator, the value "
